@@ -24,7 +24,7 @@ TRANSLATORS = {
     "C17": [("c17.py", "gen/C17Tables.v")],
     "C16": [("c16.py", "gen/C16Tables.v")],
     "C19": [("c19.py", "gen/C19Tables.v")],
-    "C20": [("c16.py", "gen/C16Tables.v")],
+    "C20": [("c16.py", "gen/C16Tables.v"), ("c19.py", "gen/C19Tables.v")],
     "C40": [("c16.py", "gen/C16Tables.v"), ("c40.py", "gen/C40Tables.v")],
 }
 COPY_DIRS = ["programs/store/src", "programs/treasury/src", "programs/timelock/src", "programs/competition/src",
